@@ -91,6 +91,7 @@ pub struct Sim {
 	hash: u64,
 	sched_fp: u64,
 	keep_log: bool,
+	finished: bool,
 	log: Vec<String>,
 	probes: BTreeMap<&'static str, u64>,
 	violations: Vec<Violation>,
@@ -142,6 +143,10 @@ impl Sim {
 	}
 
 	fn event(&mut self, kind: &str, detail: &str) -> u64 {
+		if self.finished {
+			// teardown of the runtime (drop order of tasks) is not part of the run
+			return self.stamp;
+		}
 		self.stamp += 1;
 		let mut h = self.hash;
 		fnv(&mut h, kind.as_bytes());
@@ -301,10 +306,12 @@ impl TaskGate for Gate {
 				s.current = Some(self.id);
 				true
 			} else {
-				if let Some(e) = s.parked.iter_mut().find(|(i, _)| *i == self.id) {
-					e.1 = cx.waker().clone();
-				} else {
-					s.parked.push((self.id, cx.waker().clone()));
+				// `parked` is kept sorted by task id, so that a choice depends only on the *set* of runnable
+				// tasks and not on the order in which they were woken (which can depend on the iteration order
+				// of a randomly seeded std HashMap inside the library, e.g. when a map of senders is dropped).
+				match s.parked.binary_search_by_key(&self.id, |(i, _)| *i) {
+					Ok(p) => s.parked[p].1 = cx.waker().clone(),
+					Err(p) => s.parked.insert(p, (self.id, cx.waker().clone())),
 				}
 				if let Some(w) = s.driver_waker.take() {
 					w.wake();
@@ -531,6 +538,7 @@ where
 		hash: 0xcbf29ce484222325,
 		sched_fp: 0xcbf29ce484222325,
 		keep_log: cfg.keep_log,
+		finished: false,
 		log: Vec::new(),
 		probes: BTreeMap::new(),
 		violations: Vec::new(),
@@ -588,6 +596,7 @@ where
 		let h = spawn("main", scenario());
 		drive(h).await
 	});
+	with(|s| s.finished = true);
 	// Dropping the runtime drops every task (and with them clients, servers, streams).
 	drop(rt);
 	verif::set_gate_factory(None);
